@@ -16,13 +16,17 @@ pub struct AccessStructure {
     version: Version,
     // Use a hash-map to efficiently find dimensions by name.
     dimensions: HashMap<String, Dimension>,
+    // Identifier given to the next attribute. Never decreases, so that the
+    // identifier of a deleted attribute is never given to another one.
+    next_id: usize,
 }
 
 impl AccessStructure {
     pub fn new() -> Self {
         Self {
-            version: Version::V1,
+            version: Version::V2,
             dimensions: HashMap::new(),
+            next_id: 0,
         }
     }
 
@@ -107,16 +111,11 @@ impl AccessStructure {
         encryption_hint: EncryptionHint,
         after: Option<&str>,
     ) -> Result<(), Error> {
-        let cnt = self
-            .dimensions
-            .values()
-            .map(Dimension::nb_attributes)
-            .sum::<usize>();
-
         self.dimensions
             .get_mut(&attribute.dimension)
             .ok_or_else(|| Error::DimensionNotFound(attribute.dimension.clone()))?
-            .add_attribute(attribute.name, encryption_hint, after, cnt)?;
+            .add_attribute(attribute.name, encryption_hint, after, self.next_id)?;
+        self.next_id += 1;
 
         Ok(())
     }
@@ -347,8 +346,9 @@ fn combine(
 impl Default for AccessStructure {
     fn default() -> Self {
         Self {
-            version: Version::V1,
+            version: Version::V2,
             dimensions: HashMap::new(),
+            next_id: 0,
         }
     }
 }
@@ -364,7 +364,8 @@ mod serialization {
         type Error = Error;
 
         fn length(&self) -> usize {
-            1 + to_leb128_len(self.dimensions.len())
+            1 + to_leb128_len(self.next_id)
+                + to_leb128_len(self.dimensions.len())
                 + self
                     .dimensions
                     .iter()
@@ -383,12 +384,13 @@ mod serialization {
                 n += ser.write(dimension)?;
                 Ok::<_, Self::Error>(())
             })?;
+            n += ser.write_leb128_u64(self.next_id as u64)?;
             Ok(n)
         }
 
         fn read(de: &mut Deserializer) -> Result<Self, Self::Error> {
             let version = de.read_leb128_u64()?;
-            let dimensions = if version == Version::V1 as u64 {
+            let dimensions = if version == Version::V1 as u64 || version == Version::V2 as u64 {
                 (0..de.read_leb128_u64()?)
                     .map(|_| {
                         let name = String::from_utf8(de.read_vec()?)
@@ -402,9 +404,22 @@ mod serialization {
                     "unable to deserialize versions prior to V3".to_string(),
                 ))
             }?;
+            // Structures written before identifiers were made monotone carry no
+            // counter: resume after the largest identifier in use.
+            let next_id = if version == Version::V2 as u64 {
+                de.read_leb128_u64()?.try_into()?
+            } else {
+                dimensions
+                    .values()
+                    .flat_map(Dimension::attributes)
+                    .map(|a| a.get_id() + 1)
+                    .max()
+                    .unwrap_or(0)
+            };
             Ok(Self {
-                version: Version::V1,
+                version: Version::V2,
                 dimensions,
+                next_id,
             })
         }
     }
